@@ -99,8 +99,8 @@ Proof.
   rewrite H3; cbn [bind]. do 3 eexists; split; [reflexivity|]. split; lia.
 Qed.
 
-Lemma scan_expression_ok fuel i : (mu i < fuel)%nat ->
-  exists ty w i', scan_expression fuel i = Ok (ty, w, i') /\ ty <> EOF_T /\ (sl i' <= sl i)%nat /\ (mu i' <= mu i)%nat.
+Lemma scan_expression_ok ue fuel i : (mu i < fuel)%nat ->
+  exists ty w i', scan_expression ue fuel i = Ok (ty, w, i') /\ ty <> EOF_T /\ (sl i' <= sl i)%nat /\ (mu i' <= mu i)%nat.
 Proof.
   intros Hf. unfold scan_expression.
   destruct (scan_expression_loop_ok fuel i 1 Hf) as (w & p & i' & H & S1 & M1).
@@ -259,7 +259,7 @@ Proof.
   destruct (read i1) as [peek i2] eqn:R2.
   destruct (read_spec _ _ _ R2) as (S2 & M3 & M4).
   destruct (peek =? r_lparen) eqn:EL.
-  { destruct (scan_expression_ok fuel i2) as (ty & w & i' & H & Hty & S3 & M5); [lia|].
+  { destruct (scan_expression_ok ue fuel i2) as (ty & w & i' & H & Hty & S3 & M5); [lia|].
     rewrite H. do 3 eexists; split; [reflexivity|]. split; [lia|]. intros _. lia. }
   (* the two branches that push (peek, '@') back and scan a body *)
   assert (Hpush : (peek = r_at \/ is_name_char isln peek = false) ->
